@@ -118,6 +118,12 @@ func nestSource(pkg string, realm bool) string {
 		}
 		b.WriteString("\n")
 	}
+	// maps: insertion-ordered; entries are added and deleted at every position
+	fmt.Fprintf(&b, "var mm map[int]int\nvar ms map[string]*Flat\n\nfunc mdump() string {\n\ts := strconv.Itoa(len(mm)) + \":\"\n\tfor k, v := range mm {\n\t\ts += strconv.Itoa(k) + \"=\" + strconv.Itoa(v) + \",\"\n\t}\n\ts += \" \" + strconv.Itoa(len(ms)) + \":\"\n\tfor k, v := range ms {\n\t\ts += k + \"=\" + strconv.Itoa(v.n) + \",\"\n\t}\n\treturn s\n}\n")
+	fmt.Fprintf(&b, "func MReset(%s) string { mm = map[int]int{}; ms = map[string]*Flat{}; return mdump() }\n", cur1)
+	fmt.Fprintf(&b, "func MPut(%sk, v int) string { mm[k] = v; ms[strconv.Itoa(k)] = &Flat{v, k}; return mdump() }\n", cur)
+	fmt.Fprintf(&b, "func MDel(%sk, unused int) string { delete(mm, k); delete(ms, strconv.Itoa(k)); return mdump() }\n", cur)
+	fmt.Fprintf(&b, "func MRead(%s) string { return mdump() }\n", cur1)
 	return b.String()
 }
 
@@ -177,6 +183,25 @@ func runValueCopies(c *vf.Ctx) {
 		if len(rounds) == 0 {
 			return
 		}
+		// map rounds: n insertions, deletions at chosen insertion positions, more insertions
+		for mr := 0; mr < c.N(4, 16); mr++ {
+			r := vround{shape: -1}
+			r.ops = append(r.ops, vop{"MReset", nil})
+			n := 3 + rng.IntN(5)
+			keys := rng.Perm(40)[:n+2]
+			for i := 0; i < n; i++ {
+				r.ops = append(r.ops, vop{"MPut", []int{keys[i], 1 + rng.IntN(90)}})
+			}
+			pos := 2 + rng.IntN(n-2) // third or later entry first
+			r.kind = pos
+			r.ops = append(r.ops, vop{"MDel", []int{keys[pos], 0}})
+			r.ops = append(r.ops, vop{"MPut", []int{keys[n], 7}})
+			if rng.IntN(2) == 0 {
+				r.ops = append(r.ops, vop{"MDel", []int{keys[rng.IntN(n)], 0}})
+			}
+			r.ops = append(r.ops, vop{"MPut", []int{keys[n+1], 8}}, vop{"MRead", nil})
+			rounds = append(rounds, r)
+		}
 		rng.Shuffle(len(rounds), func(i, j int) { rounds[i], rounds[j] = rounds[j], rounds[i] })
 		// ---- mode C: one in-memory main package for the worker's whole sequence
 		env, err := gnodrv.New(vf.RepoRoot(), fmt.Sprintf("%s/vc%d", c.WorkDir, wi))
@@ -232,7 +257,14 @@ func runValueCopies(c *vf.Ctx) {
 		ua, ub := chA.Acc("alice"), chB.Acc("alice")
 		wi0 := 0
 		for ri, r := range rounds {
-			s, k := vshapes[r.shape], vkinds[r.kind]
+			var s vshape
+			var k vkind
+			if r.shape < 0 {
+				s = vshape{name: "map", typ: "map[int]int and map[string]*Flat"}
+				k = vkind{name: fmt.Sprintf("delete-entry-at-insertion-position-%d", min(r.kind, 3)), body: "delete(m, k)"}
+			} else {
+				s, k = vshapes[r.shape], vkinds[r.kind]
+			}
 			combo := s.name + ":" + k.name
 			c.Case(fmt.Sprintf("valcopy/%s/%v", combo, r.ops), true)
 			c.Distinct("valcopy-combo:" + combo)
@@ -265,6 +297,9 @@ func runValueCopies(c *vf.Ctx) {
 					okA = false
 					break
 				}
+			}
+			if r.shape < 0 {
+				c.Count("valcopy_map_rounds", 1)
 			}
 			if okA {
 				c.Count("valcopy_rounds_agreeing:per-tx", 1)
@@ -302,6 +337,7 @@ func runValueCopies(c *vf.Ctx) {
 		}
 	})
 	c.RequireCounter("valcopy_rounds_agreeing:single-msgrun", int64(len(jobs)*9/10))
+	c.RequireCounter("valcopy_map_rounds", 12)
 	shallow := 0
 	for _, j := range jobs {
 		if !vshapes[j.si].deep {
